@@ -4,7 +4,8 @@ Simulator dimension: the RNG schedule. Every `choice(elements)` of KwikSortRando
 recorded (remaining elements, pivot) and replayed into an executable reference KwikSort (refinement).
 """
 from .. import gen, model, sched
-from ..lib import build_dataset, build_scheme, call, canon_ranking, key_of, exc_label, jsonable_ranking
+from ..lib import build_dataset, build_scheme, call, canon_ranking, key_of, exc_label, jsonable_ranking, canon_rankings
+from .common import apply_mutation
 from ..lib import KwikSortRandom
 from ..seed import digest
 
@@ -43,6 +44,8 @@ def gen_case(st, tier, env):
     else:
         ds = gen.gen_dataset(w, n_max=7, m_max=6)
     scheme = gen.gen_scheme(w)
+    if k.random() < 0.06:
+        scheme = gen.gen_huge_int_scheme(w)  # exact in binary64, fatal for relative tolerances
     n_univ = len({e for r in ds["rankings"] for b in r for e in b})
     sweep = tier == "thorough" and n_univ <= 5 and k.random() < 0.5
     nsched = k.choice([2, 4, 8])
@@ -50,7 +53,13 @@ def gen_case(st, tier, env):
     for i in range(nsched):
         s = gen.gen_sched(st.schedule)
         scheds.append(s)
-    return {"dataset": ds, "scheme": scheme, "scheds": scheds, "sweep": sweep}
+    case = {"dataset": ds, "scheme": scheme, "scheds": scheds, "sweep": sweep}
+    if k.random() < 0.2 and not sweep:
+        # history: the Dataset object is edited in place between two executions (whatever a first execution cached
+        # on the dataset - positions, unified rankings - must follow the edit)
+        case["mutate_after"] = k.randrange(1, max(2, len(scheds)))
+        case["mutation"] = gen.gen_mutation(w)
+    return case
 
 
 def nontrivial(probes):
@@ -176,5 +185,17 @@ def run_case(case, ctx):
             prefix = [t[2] for t in tr[:j]] + [tr[j][2] + 1]
         ctx.probe("sweep_leaves", leaves)
     else:
-        for sp in case["scheds"]:
+        for n_exec, sp in enumerate(case["scheds"]):
+            if case.get("mutation") and n_exec == case.get("mutate_after"):
+                apply_mutation(ds, case["mutation"])
+                mr = canon_rankings(ds.rankings)
+                elems = model.universe(mr)
+                idx = {e: i for i, e in enumerate(elems)}
+                cost = model.ref_cost(mr, elems, B, T)
+                W = model.coherent_weak_order(cost)
+                identical = None
+                if mr and len(set(mr)) == 1 and model.domain(mr[0]) == frozenset(elems) and B[2] > 0 and T[0] > 0:
+                    identical = mr[0]
+                ctx.probe("mutated_in_place")
+                ctx.event("mutate", case["mutation"]["mutate"], model.canon(mr))
             _one_execution(ds, sc, sched.Sched.from_spec(sp), elems, idx, cost, W, identical, ctx, case)
